@@ -25,7 +25,7 @@ fn expected_nonce(base: &[u8; 12], seq: u64) -> [u8; 12] {
     n
 }
 
-//@h name=c04_l1_seal_in_place_step tier=quick mode=func timeout=600 desc="one seal_in_place_detached step from an arbitrary context state with an arbitrary AEAD: nonce handed to the AEAD = base_nonce XOR BE64(seq) in the last 8 bytes, key/aad/plaintext passed unchanged, counter +1 or latch at 2^64-1, exhausted context refuses without touching buffer/AEAD/state" bounds="key 128 bit, base nonce 96 bit, seq 64 bit, overflowed, tag, AEAD verdict all symbolic; plaintext 0..=5 B, aad 0..=3 B; unwind 20"
+//@h name=c04_l1_seal_in_place_step tier=quick mode=func also=C02 timeout=600 desc="one seal_in_place_detached step from an arbitrary context state with an arbitrary AEAD: nonce handed to the AEAD = base_nonce XOR BE64(seq) in the last 8 bytes, key/aad/plaintext passed unchanged, counter +1 or latch at 2^64-1, exhausted context refuses without touching buffer/AEAD/state" bounds="key 128 bit, base nonce 96 bit, seq 64 bit, overflowed, tag, AEAD verdict all symbolic; plaintext 0..=5 B, aad 0..=3 B; unwind 20"
 /// L1/L3: one step of seal_in_place_detached from an arbitrary state, arbitrary AEAD behaviour
 #[kani::proof]
 #[kani::unwind(20)]
@@ -160,9 +160,9 @@ macro_rules! seal_alloc_harness {
         }
     };
 }
-//@h name=c04_l1_seal_alloc_len0 tier=quick mode=func timeout=900 desc="one step of the allocating seal() on an empty plaintext from an arbitrary state: output = tag only (16 B), same nonce formula and state machine as the in-place form, exhausted context refuses without calling the AEAD" bounds="state, tag, AEAD verdict symbolic; plaintext length 0 (concrete), aad 0..=3 B; unwind 20"
+//@h name=c04_l1_seal_alloc_len0 tier=quick mode=func also=C14,C06 timeout=900 desc="one step of the allocating seal() on an empty plaintext from an arbitrary state: output = tag only (16 B), same nonce formula and state machine as the in-place form, exhausted context refuses without calling the AEAD" bounds="state, tag, AEAD verdict symbolic; plaintext length 0 (concrete), aad 0..=3 B; unwind 20"
 seal_alloc_harness!(c04_l1_seal_alloc_len0, 0);
-//@h name=c04_l1_seal_alloc_len3 tier=quick mode=func timeout=900 desc="same for a 3-byte plaintext: output = in-place ciphertext || tag, length +16" bounds="state, tag, AEAD verdict symbolic; plaintext length 3 (concrete), contents symbolic; aad 0..=3 B; unwind 20"
+//@h name=c04_l1_seal_alloc_len3 tier=quick mode=func also=C14,C06 timeout=900 desc="same for a 3-byte plaintext: output = in-place ciphertext || tag, length +16" bounds="state, tag, AEAD verdict symbolic; plaintext length 3 (concrete), contents symbolic; aad 0..=3 B; unwind 20"
 seal_alloc_harness!(c04_l1_seal_alloc_len3, 3);
 //@h name=c04_l1_seal_alloc_len17 tier=thorough mode=func timeout=1800 desc="same for a 17-byte plaintext (one byte over the AEAD block)" bounds="plaintext length 17 (concrete), contents symbolic; unwind 20"
 seal_alloc_harness!(c04_l1_seal_alloc_len17, 17);
